@@ -455,6 +455,7 @@ func runC01(c *Ctx) int {
 		c.Inconclusive("no image recovered to an in-flight state")
 	}
 	c.hookCompleteness(c.Pick(3, 32), cov)
+	c.killRuns(c.Pick(48, 1500), cov)
 	return c.Finish("fault_enumeration", cov, []string{
 		"disk model: sector-atomic (512 B) writes, arbitrary reordering between barriers, fdatasync/fsync make everything issued before them durable including the file length needed to reach the data",
 		"crashes are simulated from the recorded I/O trace (no device-mapper, no rr in this sandbox); the replayed durable image is validated byte-for-byte against the real file at every barrier",
